@@ -479,6 +479,7 @@ func pipelining(c *vh.Ctx, r *rand.Rand, active bool) {
 // deterministic gate scenarios: equality with the model
 
 func gateScenarios(c *vh.Ctx, active bool) {
+	cx := c
 	if active {
 		return // the passive role gives a deterministic system-bytes counter; the matrix covers active
 	}
@@ -634,6 +635,24 @@ func gateScenarios(c *vh.Ctx, active bool) {
 				} else {
 					acts = append(acts, tmpl, "G 1 go", "G 1 go", "G 1 go", des, "G 1 go", "G 1 go", "Q1")
 				}
+			}
+			// implementation-level oracle for the write-boundary re-check: refused, counted once,
+			// nothing of the message on the wire
+			log := sc.Render(es)
+			refused := false
+			for _, en := range es {
+				if (en.K == 'R' && en.ID == 1 && en.Result == "notsel") || (en.K == 'A' && en.ID == 1 && en.Result == "notsel") {
+					refused = true
+				}
+				if en.K == 'V' && en.ID == 1 {
+					cx.Fail("C07: a data message deselected between the B1 gate and the write boundary reached the wire ("+ep+")", log)
+				}
+			}
+			if !refused {
+				cx.Fail("C07: a data message deselected between the B1 gate and the write boundary was not refused with not-selected ("+ep+")", log)
+			}
+			if d := e.Conn.Metrics().DataMsgDropNotSelectedCount(); d != 1 {
+				cx.Fail(fmt.Sprintf("C07: write-boundary refusal moved the drop counter by %d, want 1 (%s)", d, ep), log)
 			}
 			// barrier exchange, then the counter
 			var bsys uint32
